@@ -53,7 +53,7 @@ def _nontrivial_state(server):
 
 
 NETMODES = {"zero": (None, None), "lat1ms": (0.001, None), "seg7": (None, 7), "lat20ms_seg50": (0.02, 50),
-            "slowio": (0.001, None)}
+            "slowio": (0.001, None), "throttled": (0.001, None)}
 SLOWIO = {"_open": 0.3, "read": 0.2, "write": 0.2, "list.next": 0.2, "stat": 0.1, "close": 0.1, "seek": 0.1}
 
 
@@ -76,8 +76,10 @@ async def _scenario(loop, script_name, family, k, *, neighbour=None, delays=None
     if backend != "mem":
         kw["base_path"] = tmp
     users = [aioftp.User(**kw)]
+    # "throttled": speed limits low enough that a transfer spends most of its time waiting for its throttles
+    limits = dict(read_speed_limit=100, write_speed_limit=100) if netmode == "throttled" else {}
     server = aioftp.Server(users, path_io_factory=fac, wait_future_timeout=2, block_size=256,
-                           data_ports=data_ports)
+                           data_ports=data_ports, **limits)
     await server.start(harness.HOST, PORT)
     victim = ScriptRunner(render(CORPUS[script_name], "/v"))
     info = dict(state_at_cut=None, cut_done=False, step_at_cut=None, events=0, writes=0)
@@ -201,7 +203,8 @@ def _case_list(tier):
     for mode in NETMODES:
         scripts = SCRIPTS_ALL
         if tier == "quick" and mode != "zero":
-            scripts = ["tour", "unused_data"] if mode == "lat1ms" else (["tour", "restart"] if mode == "slowio" else [])
+            scripts = ["tour", "unused_data"] if mode == "lat1ms" else (["tour", "restart"] if mode == "slowio" else
+                                                                      (["tour"] if mode == "throttled" else []))
         for s in scripts:
             leaks, info, victim = run_case(s, "peer_vanishes", None, netmode=mode)
             if leaks:
@@ -433,6 +436,73 @@ def replay_pstart(case):
         raise Violation(f"C12/pstart_{case['how']}/{kinds}", dict(leaks=leaks))
 
 
+# ---------------------------------------------------------------- Server.close() while a connection is being accepted
+async def _accept_race(loop, n_close, others, accept_delay):
+    """A client starts to connect; Server.close() is called n loop iterations later.  The client never leaves by itself:
+    whatever the server accepted must be gone when close() has returned."""
+    if accept_delay:
+        loop.net.fixed_latency = accept_delay
+    server = aioftp.Server(path_io_factory=aioftp.MemoryPathIO, wait_future_timeout=2)
+    await server.start(harness.HOST, PORT)
+    olds = []
+    for _ in range(others):
+        r = harness.Raw()
+        await r.connect()
+        await r.cmd("USER anonymous")
+        olds.append(r)
+    left = [n_close]
+    closers = []
+    keep = []
+
+    def tick():
+        if left[0] == 0:
+            closers.append(asyncio.ensure_future(server.close()))
+            return
+        left[0] -= 1
+        loop.call_soon(tick)
+
+    async def newcomer():
+        try:
+            keep.append(await asyncio.open_connection(harness.HOST, PORT))
+        except OSError:
+            pass
+
+    asyncio.ensure_future(newcomer())
+    loop.call_soon(tick)
+    while not closers:
+        await asyncio.sleep(0.001)
+    done, pending = await asyncio.wait(closers, timeout=100000)
+    leaks = {}
+    if pending:
+        leaks["server_close_hangs"] = True
+    await asyncio.sleep(5)
+    for key, v in ledger(loop, server, PORT, expect_main_listener=False).items():
+        leaks["after_close." + key] = v
+    for r in olds:
+        r.close()
+    for _r, w in keep:
+        w.close()
+    return leaks
+
+
+def part_accept(ctx):
+    cases = [(n, others, d) for others in (0, 2) for d in (0, 0.001) for n in range(0, 14)]
+    for n, others, d in cases[ctx.shard::ctx.nshards]:
+        leaks = simnet.run(lambda loop: _accept_race(loop, n, others, d))
+        ctx.count(("accept", n, others, d), True, sample=dict(server_close_n_iterations_after_connect_started=n, other_sessions=others,
+                                                            accept_delay=d), classes=["accept_race"])
+        if leaks:
+            kinds = "+".join(sorted(x.replace("after_close.", "") for x in leaks))
+            ctx.fail(f"C12/accept_race/{kinds}", dict(kind="accept", n=n, others=others, accept_delay=d), dict(leaks=leaks))
+
+
+def replay_accept(case):
+    leaks = simnet.run(lambda loop: _accept_race(loop, case["n"], case["others"], case["accept_delay"]))
+    if leaks:
+        kinds = "+".join(sorted(x.replace("after_close.", "") for x in leaks))
+        raise Violation(f"C12/accept_race/{kinds}", dict(leaks=leaks))
+
+
 def part_calibrate(ctx):
     """Thorough tier only: the repository's own suite must still pass on simnet (fidelity of the network model)."""
     from vlib import calibrate
@@ -448,7 +518,7 @@ def part_calibrate(ctx):
 
 
 def plan(tier):
-    p = [("enumerate", 16), ("align", 8), ("pstart", 4), ("tapes", 8 if tier == "quick" else 16)]
+    p = [("enumerate", 16), ("align", 8), ("pstart", 4), ("accept", 4), ("tapes", 8 if tier == "quick" else 16)]
     if tier == "thorough":
         p.append(("calibrate", 1))
     return p
